@@ -35,7 +35,7 @@ ANCHORS = ['util:KeyCache.__call__', 'util:KeyCache.__init__', 'convert:_make_co
            'convert:ConverterHandlers._process', 'classes:_make_subclass']
 MIN_COUNTERS = {'quick': {'histories': 600, 'history_steps': 15000, 'cache_hits': 3000, 'cache_misses': 3000, 'types_dropped': 2000,
                           'fresh_build_comparisons': 5000, 'threaded_conversions': 20000, 'yields_injected': 2000,
-                          'lru_sequences': 20000, 'lru_threaded_calls': 5000, 'generic_parametrisations': 300, 'shared_handler_object_sequences': 100}}
+                          'lru_sequences': 20000, 'lru_threaded_calls': 5000, 'generic_parametrisations': 300, 'shared_handler_object_sequences': 100, 'none_order_twins': 50, 'late_registration_checks': 50}}
 
 # ---- the in-cache monitor -----------------------------------------------------------------------------------------------------
 mon_lock = threading.Lock()
@@ -531,13 +531,24 @@ def run(ctx):
         G = _types.new_class(f"GT{next(_serial)}", (env.PaneBase, t.Generic[TV]), {},
                              lambda ns: ns.update({'__annotations__': {'x': TV}, '__module__': __name__}))
         a, b, v = rng.choice(((int, float, 1), (float, complex, 1.5), (str, pathlib.PurePosixPath, 'a/b'), (bool, int, True), (int, fractions.Fraction, 3)))
-        kind = rng.choice(('union', 'optional-union', 'list-of-union', 'literal', 'same-named-classes', 'same-named-classes'))
+        kind = rng.choice(('union', 'optional-union', 'list-of-union', 'literal', 'same-named-classes', 'same-named-classes', 'none-first-or-last', 'none-first-or-last'))
         if kind == 'same-named-classes':
             # two different classes that print alike (made by one factory): a key built from repr() would conflate them
             def unit(ft):
                 return type('Unit', (env.PaneBase,), {'__annotations__': {'v': ft}, '__module__': __name__})
             args = [unit(a), unit(b)]
             v = {'v': v}
+        elif kind == 'none-first-or-last':
+            # Union[None, X] and Union[X, None] PRINT alike (Optional[X]) at any depth: an enum with a None-valued member reads None
+            # as the member or as None depending on the order written; bare, inside PEP 585 generics (typing does not cache those) and Annotated
+            import enum as _enum
+            E = _enum.Enum(f"Maybe{next(_serial)}", {'NOTHING': None, 'ONE': 1})
+            wrap = rng.choice(('bare', 'list', 'dict', 'tuple', 'annotated'))
+            W = {'bare': lambda u: u, 'list': lambda u: list[u], 'dict': lambda u: dict[str, u], 'tuple': lambda u: tuple[u, int],
+                 'annotated': lambda u: t.Annotated[list[u], env.m_annotations.len_range(max=3)]}[wrap]
+            args = [W(t.Union[None, E]), W(t.Union[E, None])]
+            v = {'bare': None, 'list': [None], 'dict': {'k': None}, 'tuple': [None, 1], 'annotated': [None]}[wrap]
+            ctx.count('none_order_twins')
         elif kind == 'union':
             args = [t.Union[a, b], t.Union[b, a]]
         elif kind == 'optional-union':
@@ -661,7 +672,8 @@ def run(ctx):
         before = _enum.Enum(f"LateA{next(_serial)}", {'RED': 'red', 'BLUE': 'blue'})
         before._pv_late = True
         HolderB = type(f"LateH{next(_serial)}", (env.PaneBase,), {'__annotations__': {'c': before, 'cs': t.List[before]}, 'cs': env.pfield(default_factory=list), '__module__': __name__})
-        early = [observe(env.from_data, 'red', before), observe(HolderB.from_data, {'c': 'red', 'cs': ['blue']}), observe(env.into_data, before.RED, before)]
+        early = [observe(env.from_data, 'red', before), observe(HolderB.from_data, {'c': 'red', 'cs': ['blue']}), observe(env.into_data, before.RED, before),
+                 observe(env.into_data, [before.RED]), observe(env.into_data, {'k': before.BLUE}), observe(lambda: HolderB.from_data({'c': 'red'}).into_data())]
         conv = c18.StampConv('late')
 
         def late_handler(ty, args, *, handlers):
@@ -673,6 +685,8 @@ def run(ctx):
         rows = [('the type converted before the registration', lambda: env.from_data('red', before)), ('a twin type first seen afterwards', lambda: env.from_data('red', after)),
                 ('the earlier dataclass holding the earlier type', lambda: HolderB.from_data({'c': 'red', 'cs': ['blue']}).c),
                 ('List of the earlier type', lambda: env.from_data(['red'], t.List[before])[0]), ('a dataclass declared afterwards', lambda: HolderA.from_data({'c': 'red'}).c)]
+        out_rows = [('the earlier member in an untyped list', lambda: env.into_data([before.RED])[0]), ('the earlier member as an untyped mapping value', lambda: env.into_data({'k': before.BLUE})['k']),
+                    ('typed, on the way out', lambda: env.into_data(before.RED, before)), ('a field of the earlier dataclass, on the way out', lambda: HolderB.make_unchecked(before.RED).into_data()['c'])]
         for label, call in rows:
             o = observe(call)
             ctx.count('late_registration_checks')
@@ -681,6 +695,15 @@ def run(ctx):
             if not served:
                 ctx.violation('handlers-are-those-of-this-use', 'late-registration', 0, {'use': label, 'outcome': o.brief()[:200], 'conversions_before_the_registration': [e.brief()[:60] for e in early]},
                               mech='global-handler-ignored-for-types-converted-before-registration')
+                return
+        for label, call in out_rows:
+            o = observe(call)
+            ctx.count('late_registration_checks')
+            served = o.kind == 'value' and isinstance(o.val, list) and o.val[:2] == ['out', 'late']
+            ctx.case(('late-registration-out', label[:20], served), nontrivial=True)
+            if not served:
+                ctx.violation('handlers-are-those-of-this-use', 'late-registration', 0, {'use': label, 'outcome': o.brief()[:200]},
+                              mech='global-handler-ignored-for-types-serialised-before-registration')
                 return
 
     try:
